@@ -8,7 +8,7 @@ from harness.common import extract_json, extract_printed, plain
 
 
 def design_and_table(chk, sc, module, cfg, driver, label=None, workers=4, table_args=(), timeout=900, mode="table",
-                     keyfn=None):
+                     keyfn=None, replay=True):
     """Run TLC on module/cfg (which also prints the evaluation table), replay the table with the driver."""
     res = chk.add_tlc(label or module, tlc.run(module, cfg, sc.sub("d_" + (label or module)), workers=workers,
                                                timeout=timeout))
@@ -20,6 +20,8 @@ def design_and_table(chk, sc, module, cfg, driver, label=None, workers=4, table_
         return None
     tpath = os.path.join(sc.dir, "table_%s.json" % (label or module))
     json.dump(tabs[0], open(tpath, "w"))
+    if not replay:
+        return dict(tabs[0], _path=tpath)
     r = run_py(sc, ["-m", driver, mode, tpath] + list(table_args), timeout=timeout)
     if r.returncode != 0 and _is_machinery(r.stderr):
         chk.machinery("driver %s failed to start: %s" % (driver, r.stderr[-800:]))
